@@ -271,9 +271,17 @@ class Interp(ExprMixin, StmtMixin):
         if skip_self:
             names = names[1:]
         bound = {}
-        pos = [x for x in args if not (isinstance(x, tuple) and x and x[0] == "*")]
-        if len(pos) != len(args):
-            raise Unsupported("symbolic *args at call")
+        pos = []
+        for x in args:
+            if isinstance(x, tuple) and x and x[0] == "*":
+                # symbolic *seq: spread over the remaining positional parameters (arity obligation)
+                rest = len(names) - len(pos)
+                sv = self.seq_of(x[1])
+                self.partial(L.len_(sv.term) == rest, "TypeError", None, "star-arity")
+                et = self.elem_tag(sv)
+                pos.extend(self.retag(L.nth(sv.term, z3.IntVal(k)), et) for k in range(rest))
+            else:
+                pos.append(x)
         if len(pos) > len(names) and not a.vararg:
             raise Unsupported("too many positional args")
         for n, v in zip(names, pos):
@@ -316,7 +324,8 @@ class Interp(ExprMixin, StmtMixin):
             raise Unsupported("callee %s vanished" % c.target)
         is_method = "." in c.target.split(":")[1] and not any(
             isinstance(d, ast.Name) and d.id == "staticmethod" for d in fnode.decorator_list)
-        bound = self.bind_args(fnode, args, kwargs, skip_self=constructor)
+        is_cm = any(isinstance(d, ast.Name) and d.id == "classmethod" for d in fnode.decorator_list)
+        bound = self.bind_args(fnode, args, kwargs, skip_self=constructor or is_cm)
         env = {}
         for n, v in bound.items():
             if isinstance(v, tuple) and v[0] == "default":
@@ -346,7 +355,7 @@ class Interp(ExprMixin, StmtMixin):
                 self.oblige("term:%s@%d" % (short, line), z3.And(lex, nonneg), line, clause=str(c.decreases))
         # result
         order = [a.arg for a in fnode.args.posonlyargs + fnode.args.args + fnode.args.kwonlyargs]
-        if constructor:
+        if constructor or is_cm:
             order = order[1:]
         if c.pure:
             argterms = [as_v(env[n]) for n in order if n in env]
@@ -393,7 +402,7 @@ class Interp(ExprMixin, StmtMixin):
         if c.result == "str":
             st.assume(L.is_str(rterm))
         for label, clause in c.ensures.items():
-            if label in c.hide:
+            if c.hide == "*" or label in c.hide:
                 continue
             st.assume(as_bool(self.spec_eval_in(clause, env2, heap_before, eff_before)))
         return result
@@ -735,6 +744,8 @@ class Interp(ExprMixin, StmtMixin):
                 raise Unsupported("contract does not attach: %s has no parameter %s" % (c.target, p))
         self.entry_env = dict(st.env)
         for label, clause in c.requires.items():
+            st.assume(as_bool(self.spec_eval(clause)))
+        for label, clause in c.assumes.items():
             st.assume(as_bool(self.spec_eval(clause)))
         self.n_requires = len(st.pc)
         return st
